@@ -24,6 +24,7 @@ RULE = (
     "order). Non-trivial = >= 3 pipelines with a priority tie resolved, or an operand reused after it "
     "was added to another pipeline, or both bracketings of a three-way sum."
 )
+RULE += (" " + 'Pipeline names are flat or path-like with equal basenames (the permutation sweep runs with both), and user pipelines may carry their own value_placeholders item.')
 ASSUMPTIONS = [
     "expected outputs are computed by string construction in the model, not by pySigma",
     "each conversion uses a fresh backend class (backend-level sharing is C15's subject)",
